@@ -309,7 +309,8 @@ Qed.
 Definition owned_opf_b (ct : ctable) (h : heap_t) (roots : list val) (o : op) : bool :=
   owned_opa_b ct h roots o ||
   match o with
-  | OpConstruct c None kw => ctor_class_b ct c && kw_flat_b h kw
+  | OpConstruct c pos kw =>
+      ctor_class_b ct c && kw_flat_b h kw && match pos with Some v => flat_val_b h v | None => true end
   | OpDelAttr x a => del_ok_b ct h (nth x roots VNone) a
   | OpHelper x (HReset a) hh => h_inplace hh && del_ok_b ct h (nth x roots VNone) a
   | _ => false
@@ -327,9 +328,10 @@ Proof.
   assert (I : Inv ct (heap s)) by (split; auto).
   change (Inv ct (heap (snd (step ct roots o s)))).
   destruct o as [c pos kw| | x a | x hp hh | |]; try discriminate.
-  - destruct pos; [discriminate|]. apply andb_true_iff in Hop. destruct Hop as [H1 H2].
+  - rewrite !andb_true_iff in Hop. destruct Hop as [[H1 H2] H3].
     destruct (ctor_class_b_sound ct c H1) as [k Hc].
-    eapply step_construct; eauto. now apply kw_flat_b_sound.
+    eapply step_construct; eauto; [now apply kw_flat_b_sound|].
+    destruct pos; auto. now apply flat_val_b_sound.
   - apply step_delattr; auto. now apply del_ok_b_sound.
   - destruct hp; try discriminate. apply andb_true_iff in Hop. destruct Hop as [H1 H2].
     apply step_reset_inplace; auto. now apply del_ok_b_sound.
@@ -351,6 +353,21 @@ Definition dflt_nonref_b (ct : ctable) (h : heap_t) (recv : val) (a : aid) : boo
   end.
 
 Definition is_nil {A} (l : list A) : bool := match l with [] => true | _ => false end.
+
+(* reset(): a flat receiver all of whose attributes are leaf attributes with a scalar /
+   factory-of-scalars default *)
+Definition reset_ok_b (ct : ctable) (h : heap_t) (recv : val) : bool :=
+  match recv with
+  | VRef l =>
+      match nth_error h l with
+      | Some (OInst cl d) =>
+          match lookup_cls ct cl with
+          | Some k => flat_class_b k && keys_managed_b k d &&
+                      forallb (fun sp => leaf_attr_b sp && default_ok_b k sp) (c_attrs k)
+          | None => false end
+      | _ => false end
+  | _ => false
+  end.
 
 (* Operations covered: those of owned_opf_b, and (f a quiet function: qfn)
    - update_<item>(old, new): in place and copy-on-write, any arguments;
@@ -377,6 +394,9 @@ Definition owned_opg_b (ct : ctable) (h : heap_t) (roots : list val) (o : op) : 
   | OpHelper x (HTransform a) hh =>
       negb (h_inplace hh) && is_nil (h_kwfn hh) && oqfn_b (h_fn hh) &&
       recv_flat_b ct h (nth x roots VNone) a false && dflt_nonref_b ct h (nth x roots VNone) a
+  | OpHelper x (HReset a) hh =>
+      negb (h_inplace hh) && recv_flat_b ct h (nth x roots VNone) a false && del_ok_b ct h (nth x roots VNone) a
+  | OpHelper x HResetTop hh => reset_ok_b ct h (nth x roots VNone)
   | _ => false
   end.
 
@@ -411,6 +431,13 @@ Proof.
     destruct (recv_flat_b_sound ct (heap s) l a false H4) as (cl & d & k & FR & Hla & _).
     eapply transform_cow; eauto; [now apply oqfn_b_sound|].
     intros As. destruct FR as (N & Hk & _). simpl in H5. rewrite N, Hk, As in H5. now apply nonref_b_sound.
+  - (* reset_<a> copy-on-write *)
+    rewrite !andb_true_iff in Hop. destruct Hop as [[H1 H2] H3]. apply negb_true_iff in H1.
+    destruct (recv_flat_b_sound ct (heap s) l a false H2) as (cl & d & k & FR & _ & _).
+    destruct (del_ok_b_sound ct (heap s) (VRef l) a H3 l eq_refl) as (cl' & k' & [d' N'] & Hk' & Hla).
+    destruct FR as (N & Hk & Fc & Km). rewrite N in N'. inversion N'; subst cl' d'.
+    rewrite Hk in Hk'. inversion Hk'; subst k'.
+    apply (reset_cow ct Hf Hn' Hr' l a hh s cl d k); auto. split; auto.
   - (* update_<item> *)
     rewrite !andb_true_iff in Hop. destruct Hop as [H1 H3].
     assert (Hkw : h_kw hh = None) by (destruct (h_kw hh); auto; discriminate).
@@ -430,4 +457,14 @@ Proof.
       exact (dflt_missing_b_sound ct (heap s) _ a H4 l eq_refl).
     + destruct (recv_flat_b_sound ct (heap s) l a true H3) as (cl & d & k & FR & Hla & D).
       eapply transform_item_cow; eauto.
+  - (* reset() *)
+    simpl in Hop. destruct (nth_error (heap s) l) as [[| | |cl d]|] eqn:N; try discriminate.
+    destruct (lookup_cls ct cl) as [k|] eqn:Hk; [|discriminate].
+    rewrite !andb_true_iff in Hop. destruct Hop as [[H1 H2] H3].
+    eapply (reset_all ct Hf Hn' Hr' l hh s cl d k); auto.
+    + split; auto. split; auto. split; [now apply flat_class_b_sound|now apply keys_managed_b_sound].
+    + intros a sp Ha. rewrite forallb_forall in H3.
+      assert (Hin : In sp (c_attrs k)) by (eapply lookup_attr_in; eauto).
+      specialize (H3 _ Hin). apply andb_true_iff in H3. destruct H3.
+      split; [now apply leaf_attr_b_sound|now apply default_ok_b_sound].
 Qed.
